@@ -23,6 +23,7 @@ import Proofs.Handler
 import Proofs.HandlerWF
 import Proofs.HandlerWire
 import Proofs.HandlerTyped
+import Proofs.HandlerDdsSplit
 namespace Pydap.C05
 open Pydap Pydap.Xdr
 open Pydap.Stream (SR srRead absSR)
@@ -226,6 +227,37 @@ theorem C05_dds_embedded (dds0 : Bytes) (t : Tmpl) (d : Data)
   refine ⟨e, ?_⟩
   rw [e]
   exact splitFirst_at splitPattern (by decide) dds0 (encImpl t d) hno
+
+/-- **the embedded DDS of a served response — the separator hypothesis discharged** (round 7).  `C05_dds_embedded`
+    assumes that `\nData:\n` does not occur inside the DDS.  For the DDS the handler model prints this is now PROVED
+    (`Handler.ddsText_sepFree`, Proofs/HandlerDdsSplit.lean: after the first line every line starts with a space or `}`),
+    whenever the names, type names and dimension names of the constrained dataset are ASCII without a newline
+    (`Dataset.Plain`; pydap %-quotes names, type names come from a table).  So, for every request as in
+    `C05_constrained_response_exact`: the DDS response is `s0 ‖ \n`, and the client's `raw.split(b"\nData:\n", 1)` of the
+    data response returns exactly `s0` — the DDS response without its final newline — and the reference bytes. -/
+theorem C05_dds_embedded_served (fmt : Int → Handler.Str) (ds cds : Handler.Dataset) (q : Handler.Str)
+    (hw : ds.WF) (ht : ds.TY) (h : Handler.constrained ds q = .ok cds) (hs : cds.Shaped) (hp : cds.Plain) :
+    ∃ s0 body, Handler.respond fmt ds cs!"dds" q = .ok .dds (.complete (s0 ++ ['\n'])) ∧
+      Handler.respond fmt ds cs!"dods" q = .ok .dods (.complete body) ∧
+      splitBody (Handler.strBytes body)
+        = some (Handler.strBytes s0, XdrSpec.enc (Handler.tmplOf cds) (Handler.dataOf cds)) := by
+  obtain ⟨s0, e, hsf⟩ := Handler.ddsText_sepFree cds hp
+  obtain ⟨r1, r2, _, _, _⟩ := C05_constrained_response_exact fmt ds cds q hw ht h hs
+  refine ⟨s0, _, by rw [← e]; exact r1, r2, ?_⟩
+  rw [e]
+  have : Handler.strBytes (s0 ++ ['\n'] ++ cs!"Data:\n" ++
+      Handler.bytesStr (XdrSpec.enc (Handler.tmplOf cds) (Handler.dataOf cds)))
+      = Handler.strBytes s0 ++ splitPattern ++ XdrSpec.enc (Handler.tmplOf cds) (Handler.dataOf cds) := by
+    rw [Handler.strBytes_append, Handler.strBytes_append, Handler.strBytes_append, Handler.strBytes_bytesStr]
+    simp [splitPattern, dataMarker, Handler.strBytes]
+  rw [this]
+  exact E2E.split_sepFree _ _ hsf
+
+example : exCds.Plain := by
+  refine ⟨E2E.plain_lit _ (by decide), ?_⟩
+  intro v hv; simp [exCds] at hv
+  rcases hv with rfl | rfl <;>
+    exact ⟨E2E.plain_lit _ (by decide), E2E.plain_lit _ (by decide), by simp⟩
 
 /-! ### the streaming readers (`StreamReader`: `open_dods_url`, `SequenceProxy.__iter__`)
 
